@@ -502,11 +502,21 @@ func genPipeOne(r *h.Rand, kind int) string {
 		if r.Chance(30) {
 			ops += " ; resume ; wait steps " + fmt.Sprint(r.Range(1, 30)) + " ; suspend"
 		}
-		ops += " ; unpause ; resume"
+		ops += " ; unpause"
+		if r.Chance(25) { // the first attempt to take the terminal back fails in Tty.Start
+			ops += " ; resumefail"
+			if r.Chance(30) {
+				ops += " ; suspend" // a Suspend on the still-suspended screen
+			}
+		}
+		ops += " ; resume"
 		if r.Chance(25) {
 			ops += " ; resume ; wait steps " + fmt.Sprint(r.Range(1, 30)) + " ; suspend ; resume"
 		}
 		ops += " ; more ; check2 ; fini"
+		if i := strings.Index(ops, " ; resumefail"); i >= 0 && r.Chance(35) {
+			ops = ops[:i] + " ; resumefail ; fini" // the application gives up after the failed Resume
+		}
 		return hdr(steps, exp, expat, fmt.Sprintf("feed2=%s exp2=%s cons=%s %s %s draw=%d", ppJoin(steps2), ppJoin(exp2), ppCons(r), stop, post(), r.Intn(2))) + ops
 	case 5: // PostEvent from several goroutines exactly at capacity-1 / capacity: nil iff enqueued, ErrEventQFull iff not
 		const qcap = 10
